@@ -40,6 +40,25 @@ def upow(a, b, st=None):
     return t
 
 
+_FSTR = z3.Function("fstr", z3.IntSort(), z3.IntSort(), z3.IntSort())
+_FSTR_ARG = z3.Function("fstr_arg", z3.IntSort(), z3.IntSort())
+_FSTR_PRE = z3.Function("fstr_prefix", z3.IntSort(), z3.IntSort())
+
+
+def fstr(st, prefix, d):
+    """f"prefix{d}" with an integer d: injective in (prefix, d) and different from every interned constant."""
+    import re as _re
+    from .values import _interned, intern_str
+    used("f-string keys f\"prefix{int}\": injective in the integer, distinct from every string constant of the program")
+    for k in _interned:
+        if k.startswith(prefix) and _re.fullmatch(r"-?\d+", k[len(prefix):] or "x"):
+            raise Unsupported(f"f-string key family {prefix!r} collides with the constant {k!r}")
+    pid = intern_str("$fprefix$" + prefix)
+    t = _FSTR(z3.IntVal(pid), to_z3(d))
+    st.fact(z3.And(t < 0, _FSTR_ARG(t) == to_z3(d), _FSTR_PRE(t) == pid))
+    return VStr(t, None, fparts=(prefix, d))
+
+
 # ------------------------------------------------------------------------------------------------ arrays
 
 def _arr(I, st, v) -> Arr | None:
@@ -428,14 +447,23 @@ def comprehension(I, st, node):
         return st.alloc(Arr((n,), lambda i: I._pick(items, i), kind="list", etype="any"), "arr")
     # symbolic length: element closure (element expression must be call-free or use pure models only)
     env0 = dict(st.env)
+    if not I.in_contract and not I.dry:
+        # the implicit-exception obligations of the element expression: once, for an arbitrary in-range position
+        k = z3.Int(fresh_name("ck"))
+        s2 = st.fork()
+        s2.assume(zand(k >= 0, k < to_z3(it.length)))
+        I.assign(g.target, it.item(k), s2)
+        I.eval(node.elt, s2)
 
     def elem(i):
         saved = st.env
         st.env = dict(env0)
+        I.in_contract += 1     # obligations were generated above; later evaluations only build the value
         try:
             I.assign(g.target, it.item(i), st)
             return I.eval(node.elt, st)
         finally:
+            I.in_contract -= 1
             st.env = saved
     return st.alloc(Arr((it.length,), elem, kind="list", etype="any"), "arr")
 
@@ -1001,7 +1029,7 @@ def np_stack(axis0_only=True, name="np.vstack"):
             a = I.arr_of(seq, st)
             n = I.concrete_int(a.shape[0])
             if n is None:
-                raise Unsupported("stack of symbolic number of arrays")
+                return _stack_symbolic(I, st, a, node)
             parts = [a.elem(i) for i in range(n)]
         arrs = [I.arr_of(p, st) for p in parts]
         nd = arrs[0].ndim
@@ -1027,8 +1055,55 @@ def np_stack(axis0_only=True, name="np.vstack"):
                 out = _ite_val(i < off_k + to_z3(b.shape[0]), b.elem(i - off_k, *idx[1:]), out)
             return out
         et = arrs[0].etype
-        return st.alloc(Arr((total,) + tuple(arrs[0].shape[1:]), elem, kind="ndarray", etype=et), "arr")
+        shape = (total,) + tuple(arrs[0].shape[1:])
+        named = _name_elements(I, st, shape, elem, et)
+        return st.alloc(Arr(shape, named or elem, kind="ndarray", etype=et), "arr")
     return h
+
+
+def _name_elements(I, st, shape, elem, et):
+    """Give a piecewise-defined numeric array a NAMED element function f with the (total, definitional) axiom
+    forall idx: f(idx) == <piecewise expression>: terms stay small applications the solver can match on."""
+    if et not in ("real", "int", "nat") or all(I.concrete_int(s) is not None for s in shape):
+        return None
+    nd = len(shape)
+    f = z3.Function(fresh_name("stk"), *([z3.IntSort()] * nd), z3.RealSort() if et == "real" else z3.IntSort())
+    idx = [z3.Int(fresh_name("q")) for _ in range(nd)]
+    nf = len(st.facts)
+    try:
+        body = elem(*idx)
+    except Unsupported:
+        del st.facts[nf:]
+        return None
+    if not is_num(body):
+        del st.facts[nf:]
+        return None
+    body = to_real(body) if et == "real" else to_z3(body)
+    inner = [to_z3(x) for x in st.facts[nf:]]
+    del st.facts[nf:]
+    from .calls import _mentions
+    for x in inner:
+        st.fact(z3.ForAll(idx, x) if any(_mentions(x, v) for v in idx) else x)
+    app = f(*idx)
+    st.fact(z3.ForAll(idx, app == body, patterns=[app]))
+    return lambda *ix: f(*[to_z3(i) for i in ix])
+
+
+def _stack_symbolic(I, st, a: Arr, node):
+    """np.vstack of a list of UNKNOWN length whose items are 1-d arrays: row i of the result is item i."""
+    used("np.vstack(list of k equally long 1-d arrays): a (k, n) array, row i is item i; k >= 1 required")
+    nz = to_z3(a.shape[0])
+    first = _arr(I, st, a.elem(z3.IntVal(0)))
+    if first is None or first.ndim != 1:
+        raise Unsupported("stack of a symbolic number of non-1-d items")
+    L = first.shape[0]
+    if not I.in_contract and not I.dry:
+        I.safety(st, nz >= 1, "stack-of-nonempty-list", node)
+        k = z3.Int(fresh_name("sk"))
+        lk = _arr(I, st, a.elem(k)).shape[0]
+        I.oblige(st, zimplies(zand(k >= 0, k < nz), to_z3(lk) == to_z3(L)), "S", "stacked-rows-equally-long", node)
+    return st.alloc(Arr((a.shape[0], L), lambda i, j: _arr(I, st, a.elem(i)).elem(j), kind="ndarray",
+                        etype=first.etype), "arr")
 
 
 def np_repeat(I, st, args, kw, node):
@@ -1346,5 +1421,13 @@ def cm_exit(I, st, cm, exceptional):
     return
 
 
+OPAQUE_GETITEM: dict = {}
+OPAQUE_SETITEM: dict = {}
+OPAQUE_ATTRS: dict = {}
+
+
 def opaque_getitem(I, st, base, sl, node):
-    raise Unsupported("subscript of opaque object")
+    h = OPAQUE_GETITEM.get(base.cls)
+    if h is None:
+        raise Unsupported("subscript of opaque object")
+    return h(I, st, base, sl, node)
